@@ -54,6 +54,7 @@ struct IN {
     char     s[12];
     char     pre[12];
     int32_t  coreret;
+    uint8_t  rngb[24];
 };
 static struct IN *src;
 
@@ -73,6 +74,37 @@ int argon2id_hash_raw(const uint32_t t, const uint32_t m, const uint32_t p, cons
                       const size_t saltlen, void *hash, const size_t hashlen) { (void) pwd; (void) salt; (void) hash; return core_raw(t, m, p, pwdlen, saltlen, hashlen); }
 int argon2i_hash_raw(const uint32_t t, const uint32_t m, const uint32_t p, const void *pwd, const size_t pwdlen, const void *salt,
                      const size_t saltlen, void *hash, const size_t hashlen) { (void) pwd; (void) salt; (void) hash; return core_raw(t, m, p, pwdlen, saltlen, hashlen); }
+#endif
+#if PART == 6
+/* encoded-string layer recorders (argon2.c is not linked) */
+static uint8_t  enc_salt[16];
+static size_t   enc_encodedlen;
+static const char *enc_pwd, *ver_str;
+static char    *enc_out;
+static int
+enc_rec(uint32_t t, uint32_t m, uint32_t p, const void *pwd, size_t pwdlen, const void *salt, size_t saltlen, size_t hashlen, char *encoded, size_t encodedlen)
+{
+    core_raw(t, m, p, pwdlen, saltlen, hashlen);
+    if (saltlen == 16) memcpy(enc_salt, salt, 16);
+    enc_pwd = (const char *) pwd; enc_out = encoded; enc_encodedlen = encodedlen;
+    return src->coreret;
+}
+int argon2id_hash_encoded(const uint32_t t, const uint32_t m, const uint32_t p, const void *pwd, const size_t pwdlen, const void *salt, const size_t saltlen,
+                          const size_t hashlen, char *encoded, const size_t encodedlen) { return enc_rec(t, m, p, pwd, pwdlen, salt, saltlen, hashlen, encoded, encodedlen); }
+int argon2i_hash_encoded(const uint32_t t, const uint32_t m, const uint32_t p, const void *pwd, const size_t pwdlen, const void *salt, const size_t saltlen,
+                         const size_t hashlen, char *encoded, const size_t encodedlen) { return enc_rec(t, m, p, pwd, pwdlen, salt, saltlen, hashlen, encoded, encodedlen); }
+static int
+ver_rec(const char *encoded, const void *pwd, size_t pwdlen)
+{
+    core_calls++; ver_str = encoded; enc_pwd = (const char *) pwd; core_pwdlen = pwdlen;
+    return src->coreret;
+}
+int argon2id_verify(const char *encoded, const void *pwd, const size_t pwdlen) { return ver_rec(encoded, pwd, pwdlen); }
+int argon2i_verify(const char *encoded, const void *pwd, const size_t pwdlen) { return ver_rec(encoded, pwd, pwdlen); }
+int argon2id_hash_raw(const uint32_t t, const uint32_t m, const uint32_t p, const void *pwd, const size_t pwdlen, const void *salt,
+                      const size_t saltlen, void *hash, const size_t hashlen) { return -1; }
+int argon2i_hash_raw(const uint32_t t, const uint32_t m, const uint32_t p, const void *pwd, const size_t pwdlen, const void *salt,
+                     const size_t saltlen, void *hash, const size_t hashlen) { return -1; }
 #endif
 #if PART == 4
 static int which;
@@ -131,6 +163,49 @@ VERIF_MAIN
         else want = (in.opslimit == 3 && mkib == 8) ? 0 : 1;
         CHECK(r == want, "needs_rehash: 0 iff (t, m) of the string equal the requested ones, 1 if they differ, -1 if the string is malformed or the limits do not fit");
         if (want == 0) { WITNESS_AT("equal parameters"); }
+    }
+#elif PART == 6
+    {
+        static char out[P_(STRBYTES) + 1], pw[1], str[P_(STRBYTES)];
+        int         want_errno = 0, ok = 1, i, nz = 0;
+        verif_rng_src = in.rngb; verif_rng_cap = 24; verif_rng_pos = 0; verif_rng_nreq = 0;
+        memset(out, 0x5a, sizeof out);
+        errno = 0;
+# if ID
+        r = crypto_pwhash_argon2id_str(out, pw, in.passwdlen, in.opslimit, in.memlimit);
+# else
+        r = crypto_pwhash_argon2i_str(out, pw, in.passwdlen, in.opslimit, in.memlimit);
+# endif
+        if (in.passwdlen > P_(PASSWD_MAX) || in.opslimit > P_(OPSLIMIT_MAX) || in.memlimit > P_(MEMLIMIT_MAX)) { ok = 0; want_errno = EFBIG; }
+        else if (in.passwdlen < P_(PASSWD_MIN) || in.opslimit < P_(OPSLIMIT_MIN) || in.memlimit < P_(MEMLIMIT_MIN)) { ok = 0; want_errno = EINVAL; }
+        CHECK(out[P_(STRBYTES)] == 0x5a, "nothing written beyond STRBYTES");
+        if (!ok) {
+            CHECK(r == -1 && errno == want_errno && core_calls == 0 && verif_rng_pos == 0, "out-of-range: -1 / errno, no salt drawn, core not invoked");
+            for (i = 0; i < (int) P_(STRBYTES); i++) nz |= out[i];
+            CHECK(nz == 0, "no hash string is produced on failure (buffer zeroed)");
+        } else {
+            CHECK(verif_rng_pos == 16 && v_eq(enc_salt, in.rngb, 16), "the salt is exactly 16 bytes drawn from the installed random source");
+            CHECK(core_calls == 1 && core_t == (uint32_t) in.opslimit && core_m == (uint32_t) (in.memlimit / 1024) && core_p == 1 && core_pwdlen == in.passwdlen &&
+                  core_saltlen == 16 && core_hashlen == 32 && enc_out == out && enc_encodedlen == P_(STRBYTES) && enc_pwd == pw,
+                  "core invoked once with t = opslimit, m = memlimit/1024, one lane, 16-byte salt, 32-byte hash, the caller's buffers");
+            CHECK(r == (in.coreret == ARGON2_OK ? 0 : -1), "0 <=> the core succeeded");
+            WITNESS_AT("str in range");
+        }
+        /* str_verify */
+        core_calls = 0;
+        errno = 0;
+# if ID
+        r = crypto_pwhash_argon2id_str_verify(str, pw, in.passwdlen);
+# else
+        r = crypto_pwhash_argon2i_str_verify(str, pw, in.passwdlen);
+# endif
+        if (in.passwdlen > P_(PASSWD_MAX)) {
+            CHECK(r == -1 && errno == EFBIG && core_calls == 0, "password too long: -1 / EFBIG");
+        } else {
+            CHECK(core_calls == 1 && ver_str == str && enc_pwd == pw && core_pwdlen == in.passwdlen, "verifier invoked once on the caller's string and password");
+            CHECK((r == 0) == (in.coreret == ARGON2_OK) && (r == 0 || r == -1), "str_verify returns 0 <=> the verifier reports a match, else -1");
+            if (r != 0 && in.coreret == ARGON2_VERIFY_MISMATCH) { CHECK(errno == EINVAL, "mismatch sets EINVAL"); WITNESS_AT("mismatch"); }
+        }
     }
 #elif PART == 5
     {
